@@ -24,7 +24,20 @@ pub fn run(input: &[u8], rec: &mut Rec) {
                     _ => cfg,
                 };
                 let t0 = thread_cpu_ns();
-                let r = guarded(|| if route == 3 { walrus::Module::from_buffer_with_config(&bytes, &cfg).map(|m| drop(m)) } else { cfg.parse(&bytes).map(|m| drop(m)) });
+                let twice = (wv_gen::rng::fnv64(&bytes) >> 9) % 2 == 1;
+                let r = guarded(|| {
+                    let one = |cfg: &walrus::ModuleConfig| if route == 3 { walrus::Module::from_buffer_with_config(&bytes, cfg).map(|m| drop(m)) } else { cfg.parse(&bytes).map(|m| drop(m)) };
+                    let first = one(&cfg);
+                    if !twice {
+                        return first;
+                    }
+                    // the same configuration value used for a second parse: the decision must not change
+                    let second = one(&cfg);
+                    if first.is_ok() != second.is_ok() {
+                        panic!("the first parse with this configuration value {} the input, the second {} it", if first.is_ok() { "accepted" } else { "rejected" }, if second.is_ok() { "accepted" } else { "rejected" });
+                    }
+                    second
+                });
                 let dt = thread_cpu_ns() - t0;
                 (r, dt)
             })
